@@ -862,6 +862,8 @@ class Time(object):
                              microsecond=self.nanosecond // Time.MICRO)
 
     def _from_timestamp(self, t):
+        if t < 0:
+            raise ValueError("value must not be negative")
         if t >= Time.DAY:
             raise ValueError("value must be less than number of nanoseconds in a day (%d)" % Time.DAY)
         self.nanosecond_time = t
